@@ -404,6 +404,53 @@ def r20g(ctx, rep):
     rep.floor('R20g', 'component filters in the sparse encoder', n, 1)
 
 
+def r20h(ctx, rep, cr):
+    rep.rule('R20h', 'reader and writer bound the same quantity: the writer compares the length it announces with max_frame_length (R20d); '
+                     'in every read_frame* body the value compared with max_frame_length on the way to the payload allocation is the '
+                     'decoded prefix itself — from_be_bytes up to casts, with no arithmetic (+ 4 for the prefix, a saturating add) on it. '
+                     'A reader that counts something the writer does not count refuses frames at the top of the range that its own '
+                     'encoder emits')
+    n = 0
+    ARITH = ('Add', 'Sub', 'Mul', 'AddWithOverflow', 'SubWithOverflow', 'MulWithOverflow', 'AddUnchecked', 'SubUnchecked', 'Shl', 'Shr', 'Div')
+    for name, f in sorted(cr.fns.items()):
+        p = A.parent_fn(name)
+        if not re.match(re.escape(FR) + r'LengthDelimitedCodec::read_frame\w*$', p):
+            continue
+        fb = [c for c in A.calls(f) if FROM_BYTES.search(c.resolved)]
+        if not fb:
+            continue
+        defs = A.Defs(f)
+        roots = {c.dest[0] for c in fb}
+        for i, b in enumerate(f.bbs):
+            if b['cleanup']:
+                continue
+            for st in b['s']:
+                rv = st[1]
+                if rv[0] != 'bin' or rv[1] not in ('Gt', 'Lt', 'Ge', 'Le'):
+                    continue
+                for vi, li in ((2, 3), (3, 2)):
+                    if rv[li][0] == 'k' or rv[vi][0] == 'k':
+                        continue
+                    ls = A.backward_slice(f, [rv[li]], defs)
+                    if not any(x.endswith('LengthDelimitedCodec.max_frame_length') for x in ls.fields):
+                        continue
+                    vs = A.backward_slice(f, [rv[vi]], defs)
+                    if not (vs.locals & roots):
+                        continue
+                    n += 1
+                    rep.analysed(f)
+                    ops = {x[0] if isinstance(x, (list, tuple)) else x for x in vs.binops}
+                    ar = sorted(x for x in ops if x in ARITH) + sorted(lib.short(x) for x in vs.calls
+                                                                       if re.search(r'::(saturating|checked|wrapping|overflowing)_(add|sub|mul)$', x))
+                    if ar:
+                        rep.violation('R20h', f, 'reader-bounds-another-quantity', f.loc(st[2]),
+                                      'the reader compares the decoded length with the limit only after %s: it bounds a different quantity '
+                                      'than the encoder, and refuses frames its own encoder produces' % ', '.join(ar))
+                    else:
+                        rep.holds('R20h', f, 'limit test@%d' % st[2], 'the decoded prefix itself is compared')
+    rep.floor('R20h', 'limit tests on a decoded length in frame readers', n, 2)
+
+
 def run(ctx, rep):
     cr = ctx.crate('tensor_chain')
     r20a(ctx, rep, cr)
@@ -413,3 +460,4 @@ def run(ctx, rep):
     r20e(ctx, rep, cr)
     r20f(ctx, rep, cr)
     r20g(ctx, rep)
+    r20h(ctx, rep, cr)
